@@ -177,19 +177,26 @@ theorem ofLeBytes_leBytes : ∀ (w x : Nat), x < 256 ^ w → ofLeBytes (leBytes 
       exact Nat.div_lt_of_lt_mul (by rw [Nat.mul_comm]; exact h))]
     omega
 
-theorem map_ofLe_chunks (w : Nat) (hw : 0 < w) (xs : List Nat) (h : ∀ x ∈ xs, x < 256 ^ w) (f : Nat)
+theorem wordBytes_length (be : Bool) (w x : Nat) : (wordBytes be w x).length = w := by
+  cases be <;> simp [wordBytes, leBytes_length]
+
+theorem ofWordBytes_wordBytes (be : Bool) (w x : Nat) (h : x < 256 ^ w) :
+    ofWordBytes be (wordBytes be w x) = x := by
+  cases be <;> simp [wordBytes, ofWordBytes, ofLeBytes_leBytes w x h]
+
+theorem map_ofLe_chunks (be : Bool) (w : Nat) (hw : 0 < w) (xs : List Nat) (h : ∀ x ∈ xs, x < 256 ^ w) (f : Nat)
     (hf : xs.length ≤ f) :
-    (chunks w f (xs.flatMap (leBytes w))).map ofLeBytes = xs := by
-  have hfl : xs.flatMap (leBytes w) = (xs.map (leBytes w)).flatten := by
+    (chunks w f (xs.flatMap (wordBytes be w))).map (ofWordBytes be) = xs := by
+  have hfl : xs.flatMap (wordBytes be w) = (xs.map (wordBytes be w)).flatten := by
     rw [List.flatMap_def]
-  rw [hfl, chunks_flatten w hw (xs.map (leBytes w)) f
-    (by intro it hit; simp at hit; obtain ⟨x, _, rfl⟩ := hit; exact leBytes_length w x)
+  rw [hfl, chunks_flatten w hw (xs.map (wordBytes be w)) f
+    (by intro it hit; simp at hit; obtain ⟨x, _, rfl⟩ := hit; exact wordBytes_length be w x)
     (by simpa using hf)]
   rw [List.map_map]
   conv => rhs; rw [← List.map_id xs]
   apply List.map_congr_left
   intro x hx
-  exact ofLeBytes_leBytes w x (h x hx)
+  exact ofWordBytes_wordBytes be w x (h x hx)
 
 /-! ### per-item transposition -/
 
